@@ -220,7 +220,8 @@ func (x *Explorer) fdDecide(cond *Term) (res int, v *Term, truth []uint64) {
 		}
 		r, _ := x.S.Check(append(x.literals()[:x.idx:x.idx], lit), x.newGlob, false)
 		x.newGlob = nil
-		if r != "unsat" {
+		if r == "sat" {
+			// (an "unknown" answer confirms nothing and refutes nothing)
 			panic(engineBug(fmt.Sprintf("finite-domain filter disagrees with the solver (%s) on %s = %d", r, cond, res)))
 		}
 	}
